@@ -140,7 +140,7 @@ func layoutJudge(env *hx.Env, m layoutMeta) (hx.Verdict, string) {
 					cls = "directive-last-line-of-doc-comment"
 				}
 				for _, it := range m.File.Items {
-					if it.Kind == "decl" && strings.Contains(it.Text, "//go:generate") && len(it.Names) > 0 && strings.HasSuffix(k, " "+it.Names[0]) {
+					if it.Kind == "decl" && strings.Contains(it.Text, "//go:generate") && !strings.Contains(it.Text, "`") && len(it.Names) > 0 && strings.HasSuffix(k, " "+it.Names[0]) {
 						lines := strings.Split(strings.TrimSpace(it.Text), "\n")
 						for i, ln := range lines {
 							if strings.HasPrefix(ln, "//go:generate") && i+1 < len(lines) && !strings.HasPrefix(lines[i+1], "//") {
@@ -162,11 +162,15 @@ func layoutJudge(env *hx.Env, m layoutMeta) (hx.Verdict, string) {
 		for _, mm := range it.Methods {
 			var wantDoc []string
 			for _, l := range mm.Lines {
-				if !l.Notation && !l.Directive {
+				if l.Block != "" {
+					wantDoc = append(wantDoc, l.Block)
+				} else if !l.Notation && !l.Directive {
 					wantDoc = append(wantDoc, "// "+l.Text)
 				}
 			}
-			gotDoc := docOf[mm.RecvType+"."+mm.Name]
+			// gofmt decides the final shape of a doc comment (block comments are re-indented); the output went through it
+			wantDoc = pg.NormaliseDoc(wantDoc)
+			gotDoc := pg.NormaliseDoc(docOf[mm.RecvType+"."+mm.Name])
 			if strings.Join(wantDoc, "\n") != strings.Join(gotDoc, "\n") {
 				cls := "doc"
 				if len(m.File.PkgDoc) > 0 && len(wantDoc) == 0 {
@@ -180,8 +184,16 @@ func layoutJudge(env *hx.Env, m layoutMeta) (hx.Verdict, string) {
 		}
 	}
 	// nothing of the generator's own syntax survives
-	if loc := reConstraint.FindString(o.Out); loc != "" {
-		return hx.Failf(P+"|constraint-or-generate-line-survives", "%q is still in the output\n%s", strings.TrimSpace(loc), o.Out), "constraint-survives"
+	// (judged on the comments of the output: a line of a raw string literal that looks like a directive is data)
+	if outToks, err := pg.Tokens(o.Out); err == nil {
+		for _, tk := range outToks {
+			if tk.Tok != token.COMMENT {
+				continue
+			}
+			if loc := reConstraint.FindString(tk.Lit); loc != "" {
+				return hx.Failf(P+"|constraint-or-generate-line-survives", "%q is still in the output\n%s", strings.TrimSpace(loc), o.Out), "constraint-survives"
+			}
+		}
 	}
 	notes := map[string]bool{}
 	for _, it := range convs {
